@@ -27,17 +27,22 @@ CLAIMS = {
         note=NOTE_COMMON + " math.log/exp are symbolic in the Model (Sz, Growth); number printing is below the Model. The ms manual is not available offline: the interpreter encodes the semantics described in DESIGN §7/§9."),
     "C08": dict(
         category="proof", design_ref="§7 C08",
-        technique="Lean 4 theorems over a state-machine model of from_ms/build_graph (validity of every returned graph, ignored options, population/name correspondence, stage refinement lemmas to an independent ms interpreter, counterexamples for the known findings) + differential correspondence and the interpreter run on the real results",
+        technique="Lean 4 refinement theorem fromMs_sem / fromMs_sem_plain: the state-machine model of from_ms/build_graph refines an independent backwards-time ms interpreter (populations, sizes, growth, migration step function, lineage movements) on the fragment Tame' outside the known findings; validity of every returned graph; parser agreement; counterexample theorems for the findings + differential correspondence and the interpreter run on the real results",
         text=("Kernel-checked theorems fromMs_valid_all (EVERY graph from_ms returns, with or without deme_names, is accepted by Spec.validGraph — after the repair of F8 and F23), "
-              "fromMs_renameOK / fromMs_bad_names_rejected, fromMs_ignores_option / fromMs_ignores_samples (unknown options and -I sample counts have no effect), "
-              "fromMs_deme_k_is_population_k / fromMs_names, and the stage refinement lemmas build_sizes, final_sizes, build_migrations, build_movements_matrix, fromMs_sizes, fromMs_migrations "
-              "(for every command: at the end of the event loop each population's size function, growth, migration rates and per-time-group movement matrix equal the independent "
-              "interpreter's). The full semantic theorem is FALSE on the unchanged tree: fromMs_order_counterexample (F4), fromMs_split_of_new_population_counterexample (F5), "
+              "fromMs_renameOK / fromMs_bad_names_rejected, fromMs_ignores_option / fromMs_ignores_samples, fromMs_deme_k_is_population_k / fromMs_names; the stage lemmas build_sizes, "
+              "final_sizes, build_migrations, build_movements_matrix (event loop of build_graph simulates the interpreter option by option, for every command); parsers_agree / "
+              "parse_accepts_argparse_accepts / argparse_accepts_parse_accepts (argparse and the manual's parser read the same options on plain command lines; parsers_differ_* show where "
+              "they differ); addMigrations_sem, scale_rates, removeTransient_sem, sortDemes_sem, resolve_readback_sizes_migs, resultSem_total, fromMs_sizes_migs_sem (for EVERY command both "
+              "sides accept, the returned graph shows the command's populations, lifetimes, sizes, growth rates and migration step function — no tameness needed); applyParams_sem, "
+              "resolve_readback_moves, fromMs_moves (on the fragment Tame' — every same-time group of -es/-ej is a GoodGroup: no population is the source of a move after being the target "
+              "of an earlier one, 0 < p <= 1, not at time 0 — the ancestry and pulses written encode the interpreter's movement matrices); and the assembled fromMs_sem (under the decidable "
+              "parsersAgree) / fromMs_sem_plain (under PlainTokens): from_ms accepted + command has a meaning + Tame' => SemAgree(msSem command, graphSem result). goodGroup_of_tame: the "
+              "fragment contains the earlier Tame. The full property is FALSE on the unchanged tree: fromMs_order_counterexample (F4), fromMs_split_of_new_population_counterexample (F5), "
               "fromMs_interleaved_pairs_counterexample (F21), fromMs_join_chain_counterexample (F22), fromMs_split_p0_counterexample (F6b) are proved on the concrete commands (known "
-              "findings); the assembled fromMs_sem_partial on the defect-free fragment is not proved (the links applyParams -> ancestry/pulses, addMigrationsFromMatrices, post-processing and "
-              "read-back are covered by the differential only). Model tied to from_ms by exact comparison of accept/reject and the resolved graph on thousands of commands per run (all orders "
-              "of same-time options; exhaustive small scope in the thorough tier); Spec.MsSem.msSem(command) is compared with the real graph's semantics on every accepted command."),
-        note=NOTE_COMMON + " PARTIAL: the end-to-end semantic refinement rests on stage lemmas + correspondence + the Spec interpreter run on the real results. Reading of -eM/-ema after a join per DESIGN §9."),
+              "findings), all outside Tame'. Model tied to from_ms by exact comparison of accept/reject and the resolved graph on thousands of commands per run (all orders of same-time "
+              "options, off/on migration with an identical rate; exhaustive small scope in the thorough tier); Spec.MsSem.msSem(command) is compared with the real graph's semantics on "
+              "every accepted command."),
+        note=NOTE_COMMON + " PARTIAL where the property is false (known findings F4, F5, F6b, F21, F22: commands outside Tame') and for GoodGroup being sufficient, not exact. Reading of -eM/-ema after a join per DESIGN §9."),
     "C09": dict(
         category="proof", design_ref="§7 C09",
         technique="Lean 4 theorems over a hand-written model of ms.py's option records, printer and argparse layer (print/parse round trip for every option kind relative to an explicit number-codec hypothesis) + differential correspondence and semantic round-trip comparison through an independent ms interpreter",
@@ -77,7 +82,7 @@ CLAIMS = {
         technique="Lean 4 theorems over a heap model (un-aliasing deep copy: fresh, isomorphic, tree-shaped; frame and confinement theorems; Builder histories) + AST facts regenerated from the source + run-time observation of identity and mutation on the real objects",
         text=("Kernel-checked theorems deepcopy_fresh / _iso / _unaliased / _walk / _total_backward, frame, frame_after_copy, program_confined, fromdict_preserves_input (ANY program "
               "that is handed only the copy — i.e. the rest of fromdict, whether it succeeds or fails anywhere — leaves every caller object unchanged), resolve_deterministic, "
-              "resolve_again, resolve_alias_insensitive, history_invariant / _resolve_pure / _graph_stable / _resolve_from_scratch (all resolve/mutate/asdict histories on one Builder), "
+              "resolve_again, resolve_alias_insensitive, history_invariant / _resolve_pure / _graph_stable / _resolve_from_scratch (all resolve/mutate/asdict histories on one Builder), builder_history / builder_history_stable / builder_fromdict_history (over the Model of the Builder class: every resolve() of a history returns what Graph.fromdict gives on the data assembled so far, and repeating it gives the same), "
               "memo_copy_counterexample (the repaired defect F1) over a store-of-cells Model; the facts that fromdict's first statement is data = deepcopy_unaliased(data), that the "
               "helper has the modelled three-branch shape and that Builder.resolve only passes self.data on are regenerated from the source AST each run. The real code is observed "
               "with logging containers (no mutating call on caller objects), identity snapshots, resolve-twice, Builder histories, scribbling over inputs and returned dictionaries; "
@@ -121,10 +126,10 @@ CLAIMS = {
               "top-level), resolveEpochs_iff / resolveEpochs_spec / resolveDeme_spec / addDemeHeader_spec (every resolved field is the one the declarative rules of "
               "Spec/C02 prescribe: inherited sizes, inferred size functions, final end time 0, inferred start times and proportions), symmetric_expand / "
               "resolve_symmetric_eq_asymmetric (a symmetric migration resolves exactly like its written-out ordered pairs with per-pair bounds), sortPulses_stable / "
-              "resolve_pulses_stable, explicit_default_epoch / null_epoch_field_omitted / hoist_epoch_default(_top) (equivalent spellings resolve identically). The Model "
+              "resolve_pulses_stable, explicit_default_epoch / null_epoch_field_omitted / hoist_epoch_default(_top) (equivalent spellings resolve identically); for the Builder entry route: builder_doc (after ANY call sequence Builder.data is exactly the dictionary the Spec describes), builder_equiv_dict (entering a Builder-expressible document through Builder calls resolves exactly like Graph.fromdict — same graph or same error; builder_equiv_dict_*_counterexample show each clause of builderForm is needed), builder_none_is_absent / builder_infinity_string / builder_fromdict_is_dict. The Model "
               "is tied to the code by exact comparison on 4 spellings x 4 routes (dict, Builder calls, YAML, JSON) of each generated model; every result is also compared "
               "with the specification's resolution computed from the semantic model (never from the library), and with the same document whose equal sub-objects "
-              "are shared by reference (Python aliasing, YAML anchors) after the repair of defect F1."),
+              "are shared by reference (Python aliasing, YAML anchors) after the repair of defect F1; the real Builder's data and resolve() outcome are compared with the Model's Builder on every document and on random call sequences (None, 'Infinity', wrong types, repeated resolve, fromdict starts)."),
         note=NOTE_COMMON + " Object sharing cannot be expressed in the pure Model (it receives the unfolded tree); int-vs-float spelling is erased in the Model and varied by the harness."),
     "C16": dict(
         category="proof", design_ref="§7 C16",
@@ -142,9 +147,9 @@ CLAIMS = {
         text=("Kernel-checked theorem resolve_valid: for EVERY document d, if the Model of Graph.fromdict returns a graph g then the independent validator "
               "Spec.validGraph accepts g (all clauses V0-V13: name index, unique identifier names, ancestors earlier/alive, proportions, contiguous epochs, sizes, "
               "migrations/pulses in coexistence intervals, at most one migration per ordered pair, ingress <= 1 at ALL times (resolve_ingress_all_times), pulses "
-              "sorted); corollaries load_valid, loadAll_valid (any text codec), resolve_inGenerations_valid, resolve_rename_valid, resolve_renameChecked_valid (EVERY renaming that rename_demes accepts, after the repair of F23) and fromMs_valid_all (every graph from_ms returns). The Model is tied to the code by "
+              "sorted); corollaries load_valid, loadAll_valid (any text codec), resolve_inGenerations_valid, resolve_rename_valid, resolve_renameChecked_valid (EVERY renaming that rename_demes accepts, after the repair of F23) and fromMs_valid_all (every graph from_ms returns), builder_resolve_valid (every graph a sequence of Builder calls followed by resolve() returns). The Model is tied to the code by "
               "exact comparison of accept/reject, resolved dictionary and name index on generated documents and rule-targeted mutants through dict/YAML/JSON/Builder "
-              "routes, the field/validator tables are regenerated from the source AST and proved equal to the Model's, and Spec.validGraph is evaluated on every "
+              "routes, the field/validator tables AND the numeric guard conditions (every `if <cond>: raise` of the validators, Epoch/AsymmetricMigration/Pulse post-init, _add_deme, _check_time_intersection, _add_asymmetric_migration, _add_pulse, migration_matrices, _check_migration_rates) are regenerated from the source AST as Lean definitions each run and proved equal to the Model's tests for all inputs (tables_*, guards_tie_*, guard_*_meaning), and Spec.validGraph is evaluated on every "
               "graph the real library returns (incl. in_generations, rename_demes)."),
         note=NOTE_COMMON + " non-ASCII identifiers and bool-as-number are outside the exact stream."),
     "C03": dict(
@@ -153,7 +158,7 @@ CLAIMS = {
         text=("Kernel-checked theorems resolve_ok_iff ((exists g, resolve d = ok g) <-> Spec.accepts d) for EVERY document whose mappings have distinct keys (true of every JSON/YAML/Python "
               "document; counterexamples show the hypothesis is needed only because the Model uses association lists), with resolve_schema, resolve_eq_fill (the resolved graph is the one "
               "the declarative fill-in rules give), resolve_sound, resolve_complete (no spurious rejection), resolve_rejects, defaults_rules_agree (invalid defaults are rejected even when "
-              "unused), field_tables_agree, sortPulses_eq_spec. Spec.accepts = schemaOK (shape, known fields, defaults valid by the specification's own rules) and fill (fill-in by precedence, "
+              "unused), field_tables_agree, sortPulses_eq_spec; the guard conditions of the source (regenerated into Lean each run) are proved equal to the Model's tests (guards_tie_*), and by builder_equiv_dict / builder_doc the Builder route rejects exactly what the dict route rejects. Spec.accepts = schemaOK (shape, known fields, defaults valid by the specification's own rules) and fill (fill-in by precedence, "
               "independent of resolve) and Spec.validGraph (V0-V13). The Model is tied to the code by exact agreement of accept/reject on ~3400 rule-targeted and structural mutants per quick "
               "run (values on/inside/outside each bound, an exhaustive sweep of every defaults field x boundary value, overlapping-migration variants) through dict/Builder/YAML/JSON routes, "
               "and the executable Spec.acceptsB is evaluated by the driver on every mutant and compared with the REAL code's verdict in both directions."),
@@ -189,7 +194,7 @@ CLAIMS = {
         technique="Lean 4 theorems over a hand-written model of migration_matrices (boundary sweep; pointwise agreement for all t) + differential correspondence",
         text=("Kernel-checked theorems matrices_end_times, matrices_pointwise (for ALL t >= 0 and every ordered pair the entry of the matrix whose "
               "interval contains t is the rate of the migration active at t, else 0), matrices_shape, matrices_row_sum, matrices_rows_le_one over the "
-              "Model of Graph.migration_matrices, for every graph accepted by Spec.validGraph. Model tied to the code by exact comparison of matrices "
+              "Model of Graph.migration_matrices, for every graph accepted by Spec.validGraph; guards_tie_sweep / guards_tie_migration_matrices / guards_tie_check_migration_rates: the conditions of the sweep in the source (regenerated into Lean each run) are the Model's. Model tied to the code by exact comparison of matrices "
               "and end times on generated graphs; the pointwise relation is re-evaluated on the code's output at every end point, midpoint and beyond "
               "the oldest boundary."),
         note=NOTE_COMMON),
@@ -198,7 +203,7 @@ CLAIMS = {
         technique="Lean 4 theorems over a hand-written model of Deme.size_at (unique owning epoch, end sizes, interpolation, bounds; real-analysis bridge for exp/log) + differential correspondence",
         text=("Kernel-checked theorems sizeAt_outside/_outside_inf/_inf/_unique_epoch/_end/_interior/_near_end/_dt_range/_linear_between/_between for "
               "every deme of every valid graph and EVERY time, plus expoReal_* / sizeAt_real_between / sizeAt_real_pos (Mathlib Real.exp/log) giving the "
-              "exponential interpolation its real-number meaning and bounds. Model tied to Deme.size_at by comparison at boundary-directed probe times "
+              "exponential interpolation its real-number meaning and bounds; guards_tie_size_at: the branch conditions of Deme.size_at in the source (regenerated into Lean each run) are the Model's. Model tied to Deme.size_at by comparison at boundary-directed probe times "
               "(exact for constant, 1e-12 for linear, 1e-9 for the symbolic exponential term)."),
         note=NOTE_COMMON + " math.exp/log are never executed in Lean; the exponential value is compared through Python's own formula."),
     "C14": dict(
